@@ -50,6 +50,8 @@ def c10(res: CheckResult) -> None:
               list(F.fam_reent_inst(res.tier, rng)), ic)
     call_unit(res, "async public methods awaiting public methods of the same / another object",
               list(F.fam_reent_async(res.tier, rng)), ic)
+    call_unit(res, "violations found by async / sync public methods, then further (non re-entrant) operations: "
+                   "nothing but own re-entry may go unchecked", list(F.fam_inv_async(res.tier, rng)), ic)
 
 
 @check("C02")
@@ -73,6 +75,11 @@ def c08(res: CheckResult) -> None:
     call_unit(res, "snapshots (kinds x 0..2 snapshots x 0..2 postconditions x pre outcome x capture flavour)",
               list(F.fam_snap(res.tier, rng)), ic, require_outcomes=["ret", "Violation"])
     random_unit(res, "random programs beyond the exhaustive bounds", list(F.fam_random(res.tier, rng, "snap")), ic)
+    call_unit(res, "error factories reading OLD although the condition does not name it",
+              [p for p in F.fam_err(res.tier, rng) if p["tag"] == "err-post-noold"], ic)
+    def_unit(res, "snapshot names along hierarchies: duplicates between bases, between base and override; "
+                  "snapshots placed before any postcondition", list(DF.fam_snap_names(res.tier, rng)), ic, rng=rng)
+    def_unit(res, "decorator stacks: snapshots at every position", list(DF.fam_stacks(res.tier, rng)), ic, rng=rng)
 
 
 @check("C09")
